@@ -17,13 +17,13 @@ struct _MMessageGateway {
 static inline MByteBuffer * GetNextPointer(const MByteBuffer * buf)
 {
    /* coverity[overrun-local] - okay because the MByteBuffer's allocation is greater than sizeof(MByteBuffer) */
-   return *((MByteBuffer **)(void *)(&buf->bytes));
+   MByteBuffer * ret; memcpy(&ret, &buf->bytes, sizeof(ret)); return ret;  /* (the pointer is not 8-byte aligned inside the buffer) */
 }
 
 static inline void SetNextPointer(MByteBuffer * buf, const MByteBuffer * next)
 {
    /* coverity[overrun-local] - okay because the MByteBuffer's allocation is greater than sizeof(MByteBuffer) */
-   *((const MByteBuffer **)(void *)(&buf->bytes)) = next;
+   memcpy(&buf->bytes, &next, sizeof(next));  /* (the pointer is not 8-byte aligned inside the buffer) */
 }
 
 MMessageGateway * MGAllocMessageGateway(void)
